@@ -14,6 +14,8 @@ import (
 	"testing"
 	"time"
 
+	"github.com/smarthome-go/homescript/v3/homescript/analyzer/ast"
+	herrors "github.com/smarthome-go/homescript/v3/homescript/errors"
 	"github.com/smarthome-go/homescript/v3/homescript/runtime"
 	"github.com/smarthome-go/homescript/v3/homescript/runtime/value"
 	"verif.local/simrt"
@@ -636,6 +638,48 @@ func runC16(t *testing.T, spec RunSpec) *Verdict {
 			}
 		}()
 		for k := 0; k < n && viol == nil; k++ {
+			if !m.failed && spec.P("force_op", -1) < 0 && s.Choose(12, "bad-call") == 1 {
+				// An invocation the VM has to reject (unknown function, wrong number or type of arguments: the
+				// API panics). Whatever it does, it must leave nothing behind: the calls that follow are judged
+				// as if it had not happened.
+				var bad runtime.FunctionInvocation
+				what := ""
+				switch s.Choose(3, "bad-call-kind") {
+				case 0:
+					bad = runtime.FunctionInvocation{Function: "no_such_fn", FunctionSignature: runtime.FunctionInvocationSignature{ReturnType: ast.NewNullType(herrors.Span{})}}
+					what = "no_such_fn()"
+				case 1:
+					bad, _ = c16Invocation(prog, "add", []value.Value{vInt(1)})
+					what = "add(1) [one argument missing]"
+				default:
+					bad, _ = c16Invocation(prog, "add", []value.Value{vStr("x"), vInt(1)})
+					what = "add(\"x\",1) [wrong type]"
+				}
+				async := s.Choose(2, "bad-call-mode") == 1
+				rejected := false
+				func() {
+					defer func() {
+						if r := recover(); r != nil {
+							rejected = true
+						}
+					}()
+					s.SetDeadline("rejected-call-returns", 2*time.Second)
+					if async {
+						c := env.vm.SpawnAsync(bad, nil, nil, nil)
+						num, i := env.vm.Wait()
+						env.vm.HandleTermination(c, bad, i, num)
+					} else {
+						env.vm.SpawnSync(bad, nil, nil)
+					}
+				}()
+				s.ClearDeadline("rejected-call-returns")
+				history = append(history, "REJECTED "+what)
+				if !rejected {
+					s.Probe("invalid-invocation-was-not-rejected")
+					return // the VM ran something the model knows nothing about
+				}
+				s.Probe("invalid-invocation-rejected")
+			}
 			op := c16GenOp(s, m, pfault, spec.P("force_op", -1))
 			reuse := false
 			if prev != nil && prev.reusable && len(op.failKinds) == 0 && s.Choose(4, "reuse-invocation") == 1 {
